@@ -11,6 +11,7 @@ func init() {
 	vRegister("VH_C12_RecvFormat", VH_C12_RecvFormat)
 	vRegister("VH_C12_Fresh", VH_C12_Fresh)
 	vRegister("VH_C12_Toggle", VH_C12_Toggle)
+	vRegister("VH_C12_CleartextPrefix", VH_C12_CleartextPrefix)
 }
 
 // specNonce is the documented nonce: base IV with its leading 32-bit word
@@ -245,4 +246,88 @@ func VH_C12_Toggle() {
 	}
 	vAssert(s.encryptCounter == ctr+3, "counter-sequence-continues")
 	vCover("toggled")
+}
+
+// VH_C12_CleartextPrefix: the digests the first protected frames are bound to are
+// the documented ones for every shape of cleartext prefix: SHA-256 of the bytes
+// that crossed the wire in the clear in that direction (headers included, empty
+// frames included, whichever receive entry point read them) and the all-zero block
+// only for a direction in which nothing at all crossed in the clear. After the
+// prefix and key installation the stream's first protected frame is opened by the
+// reference decoder, and a reference-built first frame is accepted by the stream.
+func VH_C12_CleartextPrefix() {
+	sc := &vhConn{}
+	s, sd, rd := vhRecStream(sc)
+	nSent := vChoice("framesSent", 3)
+	nRecv := vChoice("framesRecv", 3)
+	for i := 0; i < nSent; i++ {
+		k := string(rune('0' + i))
+		n := vInt("sn" + k)
+		vAssume(n >= 0 && n <= 3)
+		if s.sendMessageWithEnd(vhCtx, vBlob("sd"+k, n), byte(vChoice("se"+k, 2))) != nil {
+			vAssume(false)
+		}
+	}
+	for i := 0; i < nRecv; i++ {
+		k := string(rune('0' + i))
+		n := vInt("rn" + k)
+		vAssume(n >= 0 && n <= 3)
+		sc.feed([]byte{byte(vChoice("re"+k, 2)), 0, 0, 0, byte(n)}, vBlob("rd"+k, n))
+		var err error
+		if vBool("withEnd" + k) {
+			_, _, err = s.ReceiveFrameWithEnd(vhCtx)
+		} else {
+			_, err = s.ReceiveFrame(vhCtx)
+		}
+		if err != nil {
+			vAssume(false)
+		}
+	}
+	wire := len(sc.outs)
+	key := vBlob("key", 32)
+	if s.SetSymmetricKey(key) != nil {
+		vAssume(false)
+	}
+	zero := make([]byte, 32)
+	dS, dR := zero, zero
+	if nSent > 0 {
+		dS = sd.inner.Sum(nil)
+		vCover("cleartext-sent")
+	}
+	if nRecv > 0 {
+		dR = rd.inner.Sum(nil)
+		vCover("cleartext-received")
+	}
+	d := vBlob("d", 3)
+	if s.sendMessageWithEnd(vhCtx, d, 1) != nil {
+		vAssume(false)
+	}
+	vAssert(len(sc.outs) == wire+1, "one-write")
+	w := sc.outs[wire]
+	vAssert(len(w) == 5+16+3+16, "first-frame-carries-iv")
+	if len(w) != 5+16+3+16 {
+		return
+	}
+	var iv [16]byte
+	copy(iv[:], w[5:21])
+	pt, oerr := vhAEAD(key).Open(nil, vhSpecNonce(iv, 0), w[21:], vhSpecAAD(true, dS, dR, w[:5]))
+	vAssert(oerr == nil, "first-frame-bound-to-documented-digests")
+	if oerr == nil {
+		vAssertBytesEqual(pt, d, "plaintext")
+	}
+	// the peer's first frame, built from the document: its send digest is what we
+	// received in the clear, its receive digest what we sent
+	var piv [16]byte
+	copy(piv[:], vBlob("piv", 16))
+	vAssume(piv != iv) // base IVs are distinct per direction
+	hdr := []byte{1, 0, 0, 0, 16 + 3 + 16}
+	pd := vBlob("pd", 3)
+	ct := vhAEAD(key).Seal(nil, vhSpecNonce(piv, 0), pd, vhSpecAAD(true, dR, dS, hdr))
+	sc.feed(hdr, piv[:], ct)
+	out, _, err := s.ReceiveFrameWithEnd(vhCtx)
+	vAssert(err == nil, "peer-first-frame-accepted")
+	if err == nil {
+		vAssertBytesEqual(out, pd, "peer-plaintext")
+	}
+	vCover("prefix-bound")
 }
